@@ -107,6 +107,9 @@ struct P14 {
     cur: Option<Position>,
     cur_republished: bool,
     coords_dbg: String,
+    /// latest even / odd position report since the record was last cleared
+    even: Option<Altitude>,
+    odd: Option<Altitude>,
 }
 
 #[derive(PartialEq, Clone, Copy, Debug)]
@@ -403,7 +406,7 @@ fn run(sc: &TScenario, mask: Mask, rx: (f64, f64), out: &mut Outcome, h: &mut Fn
                     }
                 }
                 if mask.c14 {
-                    check_c14_views(idx, &tr, out, idx % 64 == 63);
+                    check_c14_views(idx, &tr, &m14, out, idx % 64 == 63);
                     if idx % 8 == 7 {
                         check_c14_tracks(idx, &tr, &m14, out);
                     }
@@ -684,6 +687,10 @@ fn check_c14_attrs(idx: usize, hex: &str, addr: &Addr, me: &ME, st: &AirplaneSta
             }
             p.callsign = Some(id.cn.clone());
         }
+        ME::AirbornePositionBaroAltitude(a) | ME::AirbornePositionGNSSAltitude(a) => match a.odd_flag {
+            CPRFormat::Even => p.even = Some(*a),
+            CPRFormat::Odd => p.odd = Some(*a),
+        },
         ME::AirborneVelocity(v) => match v.calculate() {
             Some((hd, gs, vr)) => {
                 p.vel = Some((hd, gs as f32, vr));
@@ -717,6 +724,11 @@ fn check_c14_attrs(idx: usize, hex: &str, addr: &Addr, me: &ME, st: &AirplaneSta
     }
     // published-position monitor for the track clause
     let c = &st.coords;
+    if c.position.is_none() && c.altitudes == [None, None] {
+        // the record was cleared: pairing starts over
+        p.even = None;
+        p.odd = None;
+    }
     let dbg = format!("{c:?}");
     if !opt_bits_eq(&c.position, &p.cur) {
         if let Some(old) = p.cur {
@@ -731,7 +743,7 @@ fn check_c14_attrs(idx: usize, hex: &str, addr: &Addr, me: &ME, st: &AirplaneSta
     p.coords_dbg = dbg;
 }
 
-fn check_c14_views(idx: usize, tr: &Airplanes, out: &mut Outcome, force_render: bool) {
+fn check_c14_views(idx: usize, tr: &Airplanes, m14: &BTreeMap<Addr, P14>, out: &mut Outcome, force_render: bool) {
     let mut track_total = 0usize;
     let mut expect_pos = vec![];
     let mut with_details = vec![];
@@ -758,6 +770,14 @@ fn check_c14_views(idx: usize, tr: &Airplanes, out: &mut Outcome, force_render: 
                 if c.position.is_none() || c.kilo_distance.is_none() {
                     out.violate("C14:details-without-position", format!("after event #{idx}: {} has details but position {:?} distance {:?}", hexaddr(&k.0), c.position, c.kilo_distance));
                     return;
+                }
+                if let Some(p) = m14.get(&k.0) {
+                    // "one of the currently paired position reports" = the latest even / odd report
+                    let latest = [p.even.and_then(|a| a.alt), p.odd.and_then(|a| a.alt)];
+                    if (p.even.is_some() || p.odd.is_some()) && !latest.contains(&Some(d.altitude)) {
+                        out.violate("C14:details-altitude-not-from-the-latest-reports", format!("after event #{idx}: {} details altitude {} but the most recent even / odd position reports carry {latest:?}", hexaddr(&k.0), d.altitude));
+                        return;
+                    }
                 }
                 if !alts.contains(&Some(d.altitude)) {
                     out.violate("C14:details-altitude-not-from-paired-reports", format!("after event #{idx}: {} details altitude {} but the stored reports carry {alts:?}", hexaddr(&k.0), d.altitude));
